@@ -33,7 +33,8 @@ CHECKS = {
         "assumptions": [
             "crash = process death at a hook site (child os.Exit); torn final write = truncation of the newest log file inside the last transaction's byte range",
             "concurrent visibility is decided per recorded execution; schedules are perturbed by a generated yield plan at batch/commit hook sites, not enumerated",
-            "a commit failure can only be provoked through inputs, not through I/O errors",
+            "commit failures are provoked with a process file-size limit (RLIMIT_FSIZE, EFBIG after a partial write, like a full disk); other I/O errors (EIO, failing fsync, failing rename) are not injected",
+            "a failed plain Put/Delete (outside a transaction) may or may not have taken effect: the property speaks about failed transactions only",
         ],
     },
     "C04": {
@@ -150,7 +151,7 @@ CHECKS = {
         # every case runs in a child process of its own (real engines + replication managers over loopback TCP, 3-10 s each)
         "quick": {"shards": 16, "rounds": 1, "checks": 3, "timeout": 1500},
         "thorough": {"shards": 16, "rounds": 4, "checks": 5, "timeout": 3000},
-        "shrinktime": "150s",
+        "shrinktime": "60s",
         "assumptions": [
             "liveness is decided as bounded time: 60 s + 3 s per phase after the last write (the property's own 'tens of seconds on loopback'); measured convergence on a loaded machine is below 5 s",
             "primary and replicas run in one child process (separate engines, directories and replication managers) and talk over loopback TCP; a replica restart is Manager.Stop + Engine.Close + reopen of the same directory + new manager, not a process kill",
